@@ -29,6 +29,10 @@ def run(ctx):
     ctx.audit("Slock.Properties.C16", THEOREMS)
     if ctx.tier == "thorough":
         ctx.leanchecker("Slock.Properties.C16")
+    # the keep-rule IS LockDB.HasLock → CheckLockedEqual / checkLockedCountEqual: the model takes their regenerated translations, and the
+    # count comparison is proved equal to the engine model's (a source edit that changes what they compute breaks these obligations)
+    if ctx.lake_build(["Slock.Proofs.Kernels"], exe=False):
+        ctx.audit("Slock.Proofs.Kernels", ["Slock.Engine.countEqual_eq_generated", "Slock.Engine.checkLockedEqual_eq_generated"])
     exe = ctx.build_harness("server", only=["zz_verif_aof_test.go", "zz_verif_aof_restart_test.go", "zz_verif_aof_rewrite_test.go"])
     if not exe:
         return
